@@ -141,6 +141,40 @@ func runC14History(r *mon.Run, stream uint64) {
 	var everIDs []types.TransactionID
 	steps := 14
 	for step := 0; step < steps; step++ {
+		if step > 0 && step%5 == 0 {
+			// a block confirms a PRNG subsequence of the pool: the survivors must
+			// stay listed AND retrievable by id
+			pool := snapPool(cm)
+			bb := tip.L.NewBuilder(rng)
+			for _, x := range pool.v1 {
+				if rng.IntN(2) == 0 {
+					bb.TryV1("from-pool", chainlab.DeepCopyTxn(x))
+				}
+			}
+			if bb.V2Allowed() {
+				for _, x := range pool.v2 {
+					if rng.IntN(2) == 0 {
+						bb.TryV2("from-pool", x.DeepCopy())
+					}
+				}
+			}
+			blk := bb.Seal(tip.Block.Timestamp.Add(env.Net.BlockInterval), env.A(chainlab.Miner).Addr, tip.Height+1 >= p.Allow)
+			n := t.Attach(tip, blk, "", bb.Kinds)
+			if n.ChainValid && n.Height+1 < p.Require || (n.ChainValid && regime != "mix") {
+				if err := cm.AddBlocks(chainlab.Blocks([]*chainlab.Node{n})); err == nil && cm.Tip().ID == n.ID {
+					tip = n
+					base.Height = tip.Height
+					post := snapPool(cm)
+					r.Count("blocks_confirming_part_of_pool", 1)
+					cs := base
+					cs.Step, cs.Kind = step, "after-block"
+					c14Lookups(r, cm, post, nil, cs)
+					if r.Violations() > 0 {
+						return
+					}
+				}
+			}
+		}
 		pre := snapPool(cm)
 		pb, ok := tip.L.PoolBuilder(rng, pre.v1, pre.v2)
 		if !ok {
